@@ -8,6 +8,7 @@ import (
 	"flag"
 	"fmt"
 	"os"
+	"regexp"
 	"runtime"
 	"strings"
 	"syscall"
@@ -61,6 +62,7 @@ func main() {
 	sites := flag.String("sites", "", "site table (JSON) written by the build step")
 	list := flag.Bool("list", false, "list scenarios")
 	tracerun := flag.Int64("tracerun", -1, "in batch mode, emit the full event log of this run index")
+	knownFile := flag.String("known", "", "JSON file with a list of violation-class glob patterns that are listed findings: reported once per class, not counted towards -maxviol")
 	recycle := flag.Int("recycle", 0, "exit with code 3 after this many runs so that the orchestrator starts a fresh process (0 = never)")
 	flag.Parse()
 
@@ -129,6 +131,31 @@ func main() {
 		fmt.Fprintln(os.Stderr, "worker: unknown scenario", *scenario)
 		os.Exit(2)
 	}
+	var known []*regexp.Regexp
+	if *knownFile != "" {
+		b, err := os.ReadFile(*knownFile)
+		if err != nil {
+			fmt.Fprintln(os.Stderr, "worker:", err)
+			os.Exit(4)
+		}
+		var pats []string
+		if err := json.Unmarshal(b, &pats); err != nil {
+			fmt.Fprintln(os.Stderr, "worker: known:", err)
+			os.Exit(4)
+		}
+		for _, p := range pats {
+			known = append(known, regexp.MustCompile("^"+strings.ReplaceAll(regexp.QuoteMeta(p), `\*`, ".*")+"$"))
+		}
+	}
+	isKnown := func(class string) bool {
+		for _, re := range known {
+			if re.MatchString(class) {
+				return true
+			}
+		}
+		return false
+	}
+	reportedKnown := map[string]bool{}
 	agg := sim.NewAggregate()
 	start := time.Now()
 	nviol := 0
@@ -151,10 +178,23 @@ func main() {
 			emit(map[string]any{"hash": res.Hash, "i": i, "events": res.Events})
 		}
 		if len(res.Viol) > 0 {
-			emit(map[string]any{"violation": res})
-			nviol++
-			if nviol >= *maxViol {
-				break
+			allKnown, newKnown := true, false
+			for _, v := range res.Viol {
+				if !isKnown(v.Class) {
+					allKnown = false
+				} else if !reportedKnown[v.Class] {
+					reportedKnown[v.Class] = true
+					newKnown = true
+				}
+			}
+			if !allKnown || newKnown {
+				emit(map[string]any{"violation": res, "counted": !allKnown})
+			}
+			if !allKnown {
+				nviol++
+				if nviol >= *maxViol {
+					break
+				}
 			}
 		}
 		if res.Deadlock != "" || (*recycle > 0 && done >= *recycle) {
